@@ -186,6 +186,10 @@ def check_dataset(col, scratch, writer, nparts, multi, thorough, seed, variant="
             if multi == "list_repeated":
                 paths = [paths[0], paths[1], paths[0]]
                 arg = paths
+            if multi == "list_with_glob":
+                arg = [paths[0], os.path.join(base, "d9*.parq")]      # a plain path, then a pattern
+            if multi == "glob_then_path":
+                arg = [os.path.join(base, "d1*.parq"), paths[1]]
     except Exception as ex:
         col.violation("write.raises", case0, f"{type(ex).__name__}: {str(ex)[:250]}")
         return
@@ -237,6 +241,13 @@ def check_dataset(col, scratch, writer, nparts, multi, thorough, seed, variant="
         # ---- pruning
         vals = [p["val"].tolist() for p in parts]
         allrows = [v for p in vals for v in p]
+        if writer in ("to_parquet", "pack"):
+            # every row of every dataset named, once per mention
+            want_rows = P["val"].tolist() if multi == "single" else \
+                (P["val"].tolist() * (2 if multi == "list_repeated" else 1) + P2["val"].tolist())
+            if sorted(allrows) != sorted(want_rows):
+                col.violation("read.rows", case, f"{multi}: loaded rows {sorted(allrows)[:12]}.. ({len(allrows)}) but the datasets named hold "
+                              f"{len(want_rows)} rows")
         import pandas as pd
         from spatialpandas import GeoDataFrame
         whole = GeoDataFrame(pd.concat(parts)).set_geometry(active) if parts else None
@@ -426,6 +437,8 @@ def run(ctx):
             units.append((writer, nparts, "single", "thirds"))
             units.append((writer, nparts, "single", "rewrite"))
         units.append((writer, 5, "list_repeated", "int"))
+        units.append((writer, 5, "list_with_glob", "int"))
+        units.append((writer, 12, "glob_then_path", "int"))
     P = make_frame(8)
     P.cx[0:1, 0:1]
     P["pts"].hilbert_distance(p=3)
